@@ -61,7 +61,7 @@ func selectWork(e *Engine, props []string, only string) []*FuncResult {
 	done := map[string]bool{}
 	for _, key := range e.ctOrder {
 		ct := e.contracts[key]
-		if ct.Assumed || ct.Inline {
+		if ct.Assumed || ct.Inline || ct.Summary {
 			continue
 		}
 		if len(props) > 0 && !intersects(ct.Props, props) {
